@@ -118,6 +118,11 @@ func (m *Migrator) Migrate(
 		if err != nil {
 			return nil, fmt.Errorf("computing oldest block kept: %w", err)
 		}
+		if floor == 0 {
+			// Every block is inside the retention window (the window reaches down to
+			// genesis): nothing to prune, and nothing below the floor to carve out.
+			return nil, nil
+		}
 		m.oldestBlockKept = floor
 		m.floorPinned = true
 	}
